@@ -36,12 +36,15 @@ func TestVerifC34Child(t *testing.T) {
 
 func TestVerifC34Iceberg(t *testing.T) {
 	r := verifkit.Start(t, "C34", "iceberg")
-	defer r.Finish("crashbox over the Iceberg processor's decodeSegment (segments container: broker-written segments carrying hostile client batches, harness-wrapped mutations, every-byte truncations, noise) and parseIndex (indexes container): each call runs in a child process that logs the input index first, hands the input over as a fresh exact-capacity slice (cap == len, so an over-read of the buffer end panics instead of reading slack), recovers panics and measures TotalAlloc; violation = panic, process death (fatal error / RLIMIT_AS), or > 64 MiB allocated by one call on an input <= 64 KiB; class = decoder + innermost function of the decoder + the allocating/indexing expression on that source line; non-trivial = input passes size/magic/framing so per-batch parsing is reached",
+	defer r.Finish("crashbox over the Iceberg processor's decodeSegment (segments container: broker-written valid segments, the attribute sweep (every attributes bit pattern on otherwise valid batches, broker-written and harness-wrapped), broker-written segments carrying hostile client batches, harness-wrapped mutations, every-byte truncations, noise) and parseIndex (indexes container): each call runs in a child process that logs the input index first, hands the input over as a fresh exact-capacity slice (cap == len, so an over-read of the buffer end panics instead of reading slack), recovers panics and measures TotalAlloc; violation = panic, process death (fatal error / RLIMIT_AS), > 64 MiB allocated by one call on an input <= 64 KiB, or a call that does not return (CPU-time rule below); class = decoder + innermost function of the decoder + the allocating/indexing expression on that source line; non-trivial = input passes size/magic/framing so per-batch parsing is reached. The child also logs the return of every call; the parent polls which call is open and the child's consumed CPU time (utime+stime from /proc/<pid>/stat): a call that stays open while the child burns 20 s of CPU time (inputs are <= 64 KiB) is a hang candidate: the child is killed, the input is re-run alone in a fresh child under the same CPU-time rule (with a SIGQUIT goroutine dump for information), and only if it again burns 20 s of CPU without returning is it a violation, class decoder_does_not_return:<decoder>.<entry point>, with the input bytes as replay; the remaining inputs continue in a new child; at most 3 hang investigations per leg, a further candidate is killed, reported inconclusive and ends the target. Elapsed time decides nothing: a child that stalls without consuming CPU only trips the 10-minute wall-clock watchdog (inconclusive; at most 2 per target).",
+		"'returns records or an error' is read operationally as: one call on an input of at most 64 KiB consumes less than 20 s of CPU time (returning calls take micro- to milliseconds); decided on the child's CPU time, never on elapsed time, and only when reproduced alone in a fresh child",
 		"child address space capped at 4 GiB (RLIMIT_AS) so that a giant allocation fails in the child instead of exhausting the machine; the race detector is off in this leg because it cannot run under RLIMIT_AS",
 		"parseIndex is not called by the processor's Decode today (dead code in the decoder package); its findings are reported under their own class")
 	dir := verifc34.CorpusDir()
 	work := filepath.Join(filepath.Dir(dir), "c34work-iceberg")
 	base := verifc34.Config{Dir: work, ChildTest: "^TestVerifC34Child$", Batch: 4000, ASLimit: 4 << 30, Timeout: 10 * time.Minute, MaxDeaths: r.N(150, 1500)}
+	hangBudget := verifc34.DefaultHangBudget // hang investigations (kill + confirm alone) for the whole leg
+	base.HangBudget = &hangBudget
 	seg := base
 	seg.Corpus, seg.Target = filepath.Join(dir, "segments"), "decodeSegment"
 	if err := verifc34.Drive(r, seg, "iceberg", func(in *verifc34.Input) bool { return verifc34.ReachesBatchParser(in.Data) }); err != nil {
